@@ -40,7 +40,7 @@ ASSUMPTIONS = [
 
 
 def GATES(tier):
-    return [("ops_judged", 500), ("walks", 500), ("attrs_checked", 2000), ("single_fault_judged", 100), ("single_fault_rejected", 50),
+    return [("ops_judged", 500), ("walks", 500), ("attrs_checked", 2000), ("single_fault_judged", 100), ("single_fault_rejected", 50), ("bad_default_routes", 20),
             ("equal_value_other_type_cases", 10), ("transform_result_sweep", 200), ("slot:dictkey", 5), ("slot:elem", 20), ("slot:leafattr", 10), ("slot:attr", 50)]
 
 
@@ -77,7 +77,78 @@ def walk(ctx, world, insts, op, history, phase, case):
     return False
 
 
+BAD_DEFAULT_SRC = """
+from typing import List, Optional
+from spec_classes import spec_class, Attr
+
+@spec_class(bootstrap={boot})
+class Base:
+    count: int = 0
+    label: str = "x"
+
+class Sub(Base):          # a plain subclass overriding a default with a value of the wrong type
+    count = "many"
+
+@spec_class(bootstrap={boot})
+class Prepared:
+    width: int = 0
+    sizes: Optional[List[int]] = Attr(default_factory=lambda: ["a"])   # the factory's product does not conform
+
+    def _prepare_width(self, width):   # the preparer spoils the default only
+        return "zero" if width == 0 else width
+
+@spec_class(bootstrap={boot})
+class Cached:
+    source: int = 1
+    derived: int = Attr(default="stale", invalidated_by=["source"])   # restored whenever `source` changes
+"""
+
+
+def directed_bad_defaults(ctx):
+    """Defaults that do not conform (as overridden by a plain subclass, produced by a factory, turned out by the preparer):
+    constructed with explicit conforming values, every route that *restores the default* must raise or leave a
+    conforming state - it is an operation that would establish a non-conforming value like any other."""
+    import spec_classes.utils.type_checking as tc
+
+    routes = [
+        ("Sub", {"count": 3}, "del x.count", lambda o: delattr(o, "count")),
+        ("Sub", {"count": 3}, "x.reset_count()", lambda o: o.reset_count()),
+        ("Sub", {"count": 3}, "x.reset_count(_inplace=True)", lambda o: o.reset_count(_inplace=True)),
+        ("Sub", {"count": 3}, "x.reset()", lambda o: o.reset()),
+        ("Sub", {"count": 3}, "x.reset(_inplace=True)", lambda o: o.reset(_inplace=True)),
+        ("Prepared", {"width": 5, "sizes": [1]}, "del x.width", lambda o: delattr(o, "width")),
+        ("Prepared", {"width": 5, "sizes": [1]}, "x.reset_width()", lambda o: o.reset_width()),
+        ("Prepared", {"width": 5, "sizes": [1]}, "x.reset_sizes()", lambda o: o.reset_sizes()),
+        ("Prepared", {"width": 5, "sizes": [1]}, "del x.sizes", lambda o: delattr(o, "sizes")),
+        ("Cached", {"source": 1, "derived": 10}, "x.source = 2", lambda o: setattr(o, "source", 2)),
+        ("Cached", {"source": 1, "derived": 10}, "x.with_source(2)", lambda o: o.with_source(2)),
+        ("Cached", {"source": 1, "derived": 10}, "x.update(source=2, _inplace=True)", lambda o: o.update(source=2, _inplace=True)),
+        ("Cached", {"source": 1, "derived": 10}, "x.reset_derived()", lambda o: o.reset_derived()),
+    ]
+    for boot in (True, False):
+        ns = cg.exec_module(BAD_DEFAULT_SRC.format(boot=boot), prefix="verif_c03d").__dict__
+        for cname, kw, label, fn in routes:
+            ctx.count("ops_judged")
+            ctx.count("bad_default_routes")
+            obj = ns[cname](**kw)
+            try:
+                res = fn(obj)
+                outcome = "returned"
+            except (TypeError, ValueError):
+                res, outcome = None, "rejected"
+            except Exception as e:
+                res, outcome = None, f"raised {type(e).__name__}"
+            ctx.sig("bad_default", cname, label, outcome)
+            for target in ([obj] if res is None or res is obj else [obj, res]):
+                for attr, spec in type(target).__spec_class__.attrs.items():
+                    if attr in target.__dict__ and not tc.check_type(target.__dict__[attr], spec.type):
+                        ctx.violation("stored_value_conforms", f"[directed] {cname}(**{kw}); {label} ({outcome}): {cname}.{attr} (declared {spec.type}) now holds {target.__dict__[attr]!r}",
+                                      features={"phase": "bad_default", "route": label.split("(")[0], "cls": cname, "lazy": not boot}, case=["bad_default", cname, label, boot])
+
+
 def run(ctx, params):
+    if params.get("directed"):
+        return directed_bad_defaults(ctx)
     rng = ctx.rng
     for ci in range(params["cases"]):
         decl = cg.gen_module(rng, {"frozen": False})
@@ -163,5 +234,5 @@ def run(ctx, params):
 
 def plan(tier, seed):
     if tier == "quick":
-        return [{"shard": i, "cases": 70, "ops_per_case": 12, "single_fault_fraction": 0.7} for i in range(16)]
-    return [{"shard": i, "cases": 1500, "ops_per_case": 14, "single_fault_fraction": 0.7} for i in range(32)]
+        return [{"directed": True}] + [{"shard": i, "cases": 70, "ops_per_case": 12, "single_fault_fraction": 0.7} for i in range(16)]
+    return [{"directed": True}] + [{"shard": i, "cases": 1500, "ops_per_case": 14, "single_fault_fraction": 0.7} for i in range(32)]
